@@ -134,6 +134,18 @@ impl Backoff {
     }
 }
 
+#[cfg(p2panda_p2panda_verif)]
+impl Config {
+    /// Verification hook: default configuration with the given initial and maximum value.
+    pub fn verif_with_bounds(initial_value: Duration, max_value: Duration) -> Self {
+        Self {
+            initial_value,
+            max_value,
+            ..Self::default()
+        }
+    }
+}
+
 #[cfg(test)]
 mod tests {
     use std::time::Duration;
